@@ -17,7 +17,7 @@ EXPLANATION = (
     "capacity bound; (SHARE) clones share the store, SharedCacheLayer hands the same Arc to every service, and the "
     "store mutex guard is never held across a suspension point."
     ' (COUNTER) per-key use counters are at least 64 bits wide; every construction path of the store hands it the configured ttl (store-ttl-origin).'
-    ' (OVERWRITE) re-storing a key that is present gives the bookkeeping containers no second entry and no reset counter; the expiry predicate answers `fresh` without looking at the age only when no TTL is configured.')
+    ' (OVERWRITE) re-storing a key that is present gives the bookkeeping containers no second entry and no reset counter; the expiry predicate answers `fresh` without looking at the age only when no TTL is configured. (POLICY store-config-origin) every argument of the store constructor reads a configuration field at every construction site, and the sites agree on which; COHERENT also in path form: every path that removes an entry from the primary map removes the key from each bookkeeping container before returning.')
 RULE = "one obligation per wrapped-call site, per insertion site, per key operand, per Some-return of get, per new-key insertion, per removing method, per Arc field"
 TRUSTED = ["lru::LruCache (bounded by its capacity)", "std::collections::HashMap / VecDeque", "std::sync::Mutex"]
 ASSUMPTIONS = ["max_size >= 1"]
